@@ -1,0 +1,25 @@
+//! Verification hooks, compiled only under `--cfg pc_verif` (off by default).
+//!
+//! `hyrax::HyraxPC::commit` draws its row blinders from `rand::thread_rng()` when the
+//! `parallel` feature is on, ignoring the caller's RNG. A deterministic simulation
+//! needs that entropy behind a seam: when a seed has been installed on the current
+//! thread, the blinders come from a seeded generator instead.
+use ark_std::{
+    cell::RefCell,
+    rand::{rngs::StdRng, SeedableRng},
+    UniformRand,
+};
+
+thread_local! {
+    static HYRAX_RNG: RefCell<Option<StdRng>> = RefCell::new(None);
+}
+
+/// Installs (`Some(seed)`) or removes (`None`) the seeded blinder source for this thread.
+pub fn set_hyrax_rng_seed(seed: Option<u64>) {
+    HYRAX_RNG.with(|r| *r.borrow_mut() = seed.map(StdRng::seed_from_u64));
+}
+
+/// The next blinder from the installed source, if any.
+pub(crate) fn hyrax_blinder<F: UniformRand>() -> Option<F> {
+    HYRAX_RNG.with(|r| r.borrow_mut().as_mut().map(|rng| F::rand(rng)))
+}
